@@ -9,6 +9,14 @@ import (
 
 // CallMethod dispatches a built-in method by receiver type.
 func (in *Interp) CallMethod(recv Value, name string, args []Value) (Value, *Err) {
+	v, e := in.callMethod(recv, name, args)
+	if e == nil && in.Builtins != nil {
+		in.Builtins[TypeName(recv)+"."+name]++
+	}
+	return v, e
+}
+
+func (in *Interp) callMethod(recv Value, name string, args []Value) (Value, *Err) {
 	for _, a := range args {
 		if isOpaque(a) {
 			return nil, unspec("error text passed to a built-in")
@@ -377,6 +385,14 @@ func (in *Interp) stringMethod(s string, name string, args []Value) (Value, *Err
 
 // CallStatic models the globally available functions.
 func (in *Interp) CallStatic(name string, args []Value) (Value, *Err) {
+	v, e := in.callStatic(name, args)
+	if (e == nil || e.IsThrown) && in.Builtins != nil {
+		in.Builtins["global."+name]++
+	}
+	return v, e
+}
+
+func (in *Interp) callStatic(name string, args []Value) (Value, *Err) {
 	for _, a := range args {
 		if isOpaque(a) {
 			if name == "string" && len(args) == 1 {
@@ -594,6 +610,10 @@ func (in *Interp) CallStatic(name string, args []Value) (Value, *Err) {
 	}
 	return nil, errf("function %s not found", name)
 }
+
+var staticArity = map[string]int{"throw": 1, "string": 1, "isFloat": 1, "isInt": 1, "float": 1, "int": 1, "abs": 1, "sign": 1, "sqr": 1, "round": 1,
+	"binAnd": 2, "binOr": 2, "createLowPass": 4, "numbers": 1, "goto": 1, "sqrt": 1, "ln": 1, "log10": 1, "trunc": 1, "floor": 1, "ceil": 1, "exp": 1,
+	"sin": 1, "cos": 1, "tan": 1, "asin": 1, "acos": 1, "atan": 1}
 
 var listArity = map[string]int{"accept": 1, "map": 1, "reduce": 1, "sum": 0, "mapReduce": 2, "mean": 0, "min": 0, "max": 0, "minMax": 1,
 	"replaceList": 1, "combine": 1, "combine3": 1, "combineN": 2, "multiUse": 1, "indexWhere": 1, "groupByString": 1, "groupByInt": 1,
